@@ -58,6 +58,8 @@
 #include <complex>
 #include <cstdio>
 #include <cstdlib>
+#include <algorithm>
+#include <functional>
 #include <iostream>
 #include <limits>
 #include <memory>
@@ -145,6 +147,81 @@ static void soft_inputs(Model& m, double mu, double M1, double M2, double ml2, d
    m.set_me2(1, 1, me2);
 }
 
+struct Guess { double mu, M1, M2, ml2, me2; };
+
+// ---- set-up with a prescribed ORDER of the setter calls -------------------------------------------------------
+// Everything a user sets, as a list of single setter calls in the canonical order
+//   SM inputs | pole masses (conversions only) | tan(beta) | other DR-bar inputs | mu, M1, M2, slepton soft masses
+// order 0 canonical; 1 tan(beta) first, then SM inputs, then the rest; 2 SM inputs last of all; 3 canonical reversed
+// call by call; 4 as GM2_slha_io::fill_slha() does (SMINPUTS, MASS, scale, HMIX, A, MSOFT, GM2CalcInput alphas last);
+// 5 'changed afterwards': canonical set-up with SM input set A, then the SM inputs overwritten with the final set.
+struct PoleSpec { bool use{false}; double snu{0}, sm[2]{0, 0}, chi[4]{0, 0, 0, 0}, cha[2]{0, 0}; int mixing{0}; const Model* g{nullptr}; };
+
+static void ordered_setup(Model& m, const MP& p, const SMIn& smA, const Guess& gs, const PoleSpec& ps, int order) {
+   typedef std::function<void()> F;
+   const Eigen::Matrix<double,3,3> I = Eigen::Matrix<double,3,3>::Identity();
+   const double Pi = 3.141592653589793;
+   auto sm_steps = [&m, Pi](const SMIn& s, std::vector<F>& alphas, std::vector<F>& rest) {
+      alphas.push_back([&m, s] { m.set_alpha_MZ(s.v[0]); });
+      alphas.push_back([&m, s] { m.set_alpha_thompson(s.v[1]); });
+      rest.push_back([&m, Pi] { m.set_g3(std::sqrt(4 * Pi * 0.1184)); });
+      rest.push_back([&m, s] { m.get_physical().MFt = s.v[5]; });
+      rest.push_back([&m, s] { m.get_physical().MFb = s.v[6]; });
+      rest.push_back([&m, s] { m.get_physical().MFm = s.v[4]; });
+      rest.push_back([&m, s] { m.get_physical().MFtau = s.v[7]; });
+      rest.push_back([&m, s] { m.get_physical().MVWm = s.v[2]; });
+      rest.push_back([&m, s] { m.get_physical().MVZ = s.v[3]; });
+   };
+   std::vector<F> alphas, smrest, pole, tb, scale, hmix_mu, a_terms, other, soft;
+   sm_steps(p.sm, alphas, smrest);
+   if (ps.use) {
+      pole.push_back([&m, &ps] { m.get_physical().MSvmL = ps.snu; });
+      pole.push_back([&m, &ps] { m.get_physical().MSm(0) = ps.sm[0]; m.get_physical().MSm(1) = ps.sm[1]; });
+      pole.push_back([&m, &ps] { for (int i = 0; i < 4; i++) m.get_physical().MChi(i) = ps.chi[i]; });
+      pole.push_back([&m, &ps] { m.get_physical().MCha(0) = ps.cha[0]; m.get_physical().MCha(1) = ps.cha[1]; });
+      if (ps.mixing) {
+         pole.push_back([&m, &ps] { m.get_physical().ZN = ps.g->get_ZN(); });
+         pole.push_back([&m, &ps] { m.get_physical().ZM = ps.g->get_USm(); });
+      }
+   }
+   pole.push_back([&m] { m.set_MA0(1500); });
+   tb.push_back([&m, &p] { m.set_TB(p.tb); });
+   scale.push_back([&m] { m.set_scale(454.7); });
+   hmix_mu.push_back([&m, &gs] { m.set_Mu(gs.mu); });
+   a_terms.push_back([&m, &p] { m.set_Ae(1, 1, p.Amu); });
+   a_terms.push_back([&m] { m.set_Au(2, 2, 0); });
+   a_terms.push_back([&m] { m.set_Ad(2, 2, 0); });
+   a_terms.push_back([&m] { m.set_Ae(2, 2, 0); });
+   other.push_back([&m] { m.set_MassG(1000); });
+   other.push_back([&m, I] { m.set_mq2(5000. * 5000. * I); });
+   other.push_back([&m, I] { m.set_md2(5000. * 5000. * I); });
+   other.push_back([&m, I] { m.set_mu2(5000. * 5000. * I); });
+   soft.push_back([&m, &gs] { m.set_MassB(gs.M1); });
+   soft.push_back([&m, &gs] { m.set_MassWB(gs.M2); });
+   soft.push_back([&m, &gs, I] { m.set_ml2(3000. * 3000. * I); m.set_ml2(1, 1, gs.ml2); });
+   soft.push_back([&m, &gs, I] { m.set_me2(3000. * 3000. * I); m.set_me2(1, 1, gs.me2); });
+
+   std::vector<F> seq;
+   auto add = [&seq](const std::vector<F>& v) { seq.insert(seq.end(), v.begin(), v.end()); };
+   auto canonical = [&] { add(alphas); add(smrest); add(pole); add(tb); add(a_terms); add(other); add(scale); add(hmix_mu); add(soft); };
+   switch (order) {
+   case 0: canonical(); break;
+   case 1: add(tb); add(alphas); add(smrest); add(pole); add(a_terms); add(other); add(scale); add(hmix_mu); add(soft); break;
+   case 2: add(pole); add(tb); add(a_terms); add(other); add(scale); add(hmix_mu); add(soft); add(alphas); add(smrest); break;
+   case 3: canonical(); std::reverse(seq.begin(), seq.end()); break;
+   case 4: add(smrest); add(pole); add(scale); add(hmix_mu); add(tb); add(a_terms); add(soft); add(other); add(alphas); break;
+   case 5: {
+      std::vector<F> aA, rA;
+      sm_steps(smA, aA, rA);
+      add(aA); add(rA); add(pole); add(tb); add(a_terms); add(other); add(scale); add(hmix_mu); add(soft);
+      add(alphas); add(smrest);
+      break;
+   }
+   default: throw ESetupError("unknown set-up order");
+   }
+   for (const auto& f : seq) f();
+}
+
 static bool read_mp(std::istringstream& in, MP& p) {
    std::string t[7];
    for (auto& s : t) if (!(in >> s)) return false;
@@ -181,24 +258,18 @@ static void lagrangian(const Model& m) {
 // mode 0: fresh object per point; 1: one persistent object per process is moved to the point through the public
 // setters + calculate_masses() (the pattern of examples/example-gm2scan.cpp); 2: a copy of the persistent, already
 // evaluated object is moved to the point (the persistent object itself stays where it is)
-static void cmd_M(std::istringstream& in, int mode) {
-   static Model chain;
-   MP p;
-   if (!read_mp(in, p) || !read_optional(in, p.sm.v, 8)) { std::printf("ERR bad M command\n"); return; }
-   Model fresh;
-   Model copy(chain);
-   Model& m = mode == 0 ? fresh : mode == 1 ? chain : copy;
-   if (make_onshell(m, p, "M")) return;
+// evaluates the one-loop results on m and prints ` OK ... NTR ...` (no newline) or ` EXC ...`
+static void evaluate_M(const Model& m) {
    double a0, ac, a1;
    try {
       a0 = amu1LChi0(m);
       ac = amu1LChipm(m);
       a1 = calculate_amu_1loop(m);
    } catch (const std::exception& e) {
-      std::printf("M EXC %s %s\n", errclass(e), oneline(e.what()).c_str());
+      std::printf(" EXC %s %s", errclass(e), oneline(e.what()).c_str());
       return;
    }
-   std::printf("M OK");
+   std::printf(" OK");
    lagrangian(m);
    pd(a0); pd(ac); pd(a1);
    for (int i = 0; i < 4; i++) pd(m.get_MChi()(i));
@@ -218,6 +289,54 @@ static void cmd_M(std::istringstream& in, int mode) {
       pd(c0); pd(cc);
    } catch (const std::exception& e) {
       std::printf(" NTR EXC %s %s", errclass(e), oneline(e.what()).c_str());
+   }
+}
+
+static void cmd_M(std::istringstream& in, int mode) {
+   static Model chain;
+   MP p;
+   if (!read_mp(in, p) || !read_optional(in, p.sm.v, 8)) { std::printf("ERR bad M command\n"); return; }
+   Model fresh;
+   Model copy(chain);
+   Model& m = mode == 0 ? fresh : mode == 1 ? chain : copy;
+   if (make_onshell(m, p, "M")) return;
+   std::printf("M");
+   evaluate_M(m);
+   std::printf("\n");
+}
+
+// MO <order 0..5> <tb mu M1 M2 mL mR Amu> <8 SM inputs (final set)> [<8 SM inputs set A, order 5>]
+//   on-shell point set up with the given ORDER of setter calls (ordered_setup), calculate_masses(), result as for M;
+//   then calculate_masses() once more on the same object and the result again:  M <...> AGAIN <...>
+static void cmd_MO(std::istringstream& in) {
+   int order;
+   MP p;
+   SMIn smA;
+   if (!(in >> order) || !read_mp(in, p) || !read_optional(in, p.sm.v, 8) || !read_optional(in, smA.v, 8)) {
+      std::printf("ERR bad MO command\n");
+      return;
+   }
+   Model m;
+   const Guess gs{p.mu, p.M1, p.M2, p.mL * p.mL, p.mR * p.mR};
+   try {
+      ordered_setup(m, p, smA, gs, PoleSpec(), order);
+      m.calculate_masses();
+   } catch (const std::exception& e) {
+      std::printf("M EXC %s %s\n", errclass(e), oneline(e.what()).c_str());
+      return;
+   }
+   if (m.get_problems().have_problem() || m.get_problems().have_warning()) {
+      std::printf("M PROB %s\n", oneline(m.get_problems().get_problems()).c_str());
+      return;
+   }
+   std::printf("M");
+   evaluate_M(m);
+   std::printf(" AGAIN");
+   try {
+      m.calculate_masses();
+      evaluate_M(m);
+   } catch (const std::exception& e) {
+      std::printf(" EXC %s %s", errclass(e), oneline(e.what()).c_str());
    }
    std::printf("\n");
 }
@@ -308,7 +427,6 @@ static void spectrum(const Model& m) {
    for (int i = 0; i < 2; i++) for (int j = 0; j < 2; j++) pd(m.get_USm()(i, j));
 }
 
-struct Guess { double mu, M1, M2, ml2, me2; };
 static const double fac[3] = {0.95, 1.0, 1.05};
 
 static Guess guess_for(const Model& g, int pert) {
@@ -541,6 +659,94 @@ static void cmd_C(std::istringstream& in) {
    }
 }
 
+static PoleSpec poles_of(const Model& g, int mixing) {
+   PoleSpec ps;
+   ps.use = true;
+   ps.snu = g.get_MSvmL();
+   for (int i = 0; i < 2; i++) { ps.sm[i] = g.get_MSm()(i); ps.cha[i] = g.get_MCha()(i); }
+   for (int i = 0; i < 4; i++) ps.chi[i] = g.get_MChi()(i);
+   ps.mixing = mixing;
+   ps.g = &g;
+   return ps;
+}
+
+// one conversion on object m after ordered_setup(); me2_before: the value the me2 fit starts from (for y_prefit)
+static void convert_ordered(Model& m, const MP& p, const SMIn& smA, const Guess& gs, const PoleSpec& ps, int order, double prec) {
+   captured.str("");
+   try {
+      ordered_setup(m, p, smA, gs, ps, order);
+      m.set_verbose_output(true);
+      m.convert_to_onshell(prec, 1000);
+      m.set_verbose_output(false);
+      report(m, nullptr, gs.me2);
+   } catch (const std::exception& e) {
+      m.set_verbose_output(false);
+      std::printf(" EXC %s %s\n", errclass(e), oneline(e.what()).c_str());
+   }
+}
+
+// CO <tb mu M1 M2 mL mR Amu> <8 SM inputs, `d` = example value> <nprec> <prec..> <npert> <pert..>
+//   order-of-setter-calls family: generating point with the given SM inputs (G line), then for order 0..5 (see
+//   ordered_setup; set A of order 5 = the example's SM inputs), every precision and perturbation
+//     R <10+order> <prec> <pert> ...   conversion of a fresh object set up in that order (pole masses, no mixing matrices)
+//     R <20+order> <prec> <pert> ...   convert_to_onshell(prec, 1000) called once more on the same object
+static void cmd_CO(std::istringstream& in) {
+   MP p;
+   int nprec, npert;
+   if (!read_mp(in, p) || !read_optional(in, p.sm.v, 8) || !(in >> nprec)) { std::printf("ERR bad CO command\n"); return; }
+   std::vector<double> precs(nprec);
+   std::string s;
+   for (auto& v : precs) { in >> s; v = std::strtod(s.c_str(), nullptr); }
+   if (!(in >> npert)) { std::printf("ERR bad CO command\n"); return; }
+   std::vector<int> perts(npert);
+   for (auto& v : perts) in >> v;
+   if (!in) { std::printf("ERR bad CO command\n"); return; }
+   Model g;
+   if (!generating(g, p, "G")) return;
+   const PoleSpec ps = poles_of(g, 0);
+   for (int order = 0; order < 6; order++) for (double prec : precs) for (int pert : perts) {
+      const Guess gs = guess_for(g, pert);
+      Model m;
+      std::printf("R %d %a %d", 10 + order, prec, pert);
+      convert_ordered(m, p, SMIn(), gs, ps, order, prec);
+      std::printf("R %d %a %d", 20 + order, prec, pert);
+      captured.str("");
+      try {
+         const double me2_before = m.get_me2(1, 1);
+         m.set_verbose_output(true);
+         m.convert_to_onshell(prec, 1000);
+         m.set_verbose_output(false);
+         report(m, nullptr, me2_before);
+      } catch (const std::exception& e) {
+         m.set_verbose_output(false);
+         std::printf(" EXC %s %s\n", errclass(e), oneline(e.what()).c_str());
+      }
+   }
+}
+
+// CX <tb mu M1 M2 mL mR Amu> <prec> <pert> <mixing 0|1> <MCha0 MCha1 MChi0..3 MSvmL MSm0 MSm1>   (`d` = generating value)
+//   conversion of a fresh object whose pole masses are given explicitly (spectra that no parameter point produces):
+//     G ...   generating point,   R 30 <prec> <pert> ...
+static void cmd_CX(std::istringstream& in) {
+   MP p;
+   std::string s;
+   int pert, mixing;
+   if (!read_mp(in, p) || !(in >> s >> pert >> mixing)) { std::printf("ERR bad CX command\n"); return; }
+   const double prec = std::strtod(s.c_str(), nullptr);
+   Model g;
+   if (!generating(g, p, "G")) return;
+   PoleSpec ps = poles_of(g, mixing);
+   double v[9] = {ps.cha[0], ps.cha[1], ps.chi[0], ps.chi[1], ps.chi[2], ps.chi[3], ps.snu, ps.sm[0], ps.sm[1]};
+   if (!read_optional(in, v, 9)) { std::printf("ERR bad CX command\n"); return; }
+   ps.cha[0] = v[0]; ps.cha[1] = v[1];
+   for (int i = 0; i < 4; i++) ps.chi[i] = v[2 + i];
+   ps.snu = v[6]; ps.sm[0] = v[7]; ps.sm[1] = v[8];
+   const Guess gs = guess_for(g, pert);
+   Model m;
+   std::printf("R 30 %a %d", prec, pert);
+   convert_ordered(m, p, SMIn(), gs, ps, 0, prec);
+}
+
 // Q <api 0=C++|1=C> <prec> <nsteps> { <tb mu M1 M2 mL mR Amu> <pole 0..3> <mixing 0|1> <pert> } x nsteps
 //   object re-use: ONE model object (C++ object resp. C handle) goes through nsteps conversions; before each one every
 //   input a user has a setter for is set again (cpp_setup / c_setup); per step k
@@ -602,9 +808,12 @@ int main() {
       if (c == "M") cmd_M(in, 0);
       else if (c == "MR") cmd_M(in, 1);
       else if (c == "MC") cmd_M(in, 2);
+      else if (c == "MO") cmd_MO(in);
       else if (c == "T") cmd_T(in);
       else if (c == "C") cmd_C(in);
       else if (c == "Q") cmd_Q(in);
+      else if (c == "CO") cmd_CO(in);
+      else if (c == "CX") cmd_CX(in);
       else std::printf("ERR unknown command %s\n", oneline(c).c_str());
       n++;
    }
